@@ -15,8 +15,8 @@ git checkout -q -- . && git clean -fdq -e target
 if ! git apply --check "$SRC/patch.diff" 2>"$LOG/apply.err"; then echo "$ID: patch does not apply"; cat "$LOG/apply.err"; exit 3; fi
 git apply "$SRC/patch.diff"
 cargo nextest run --workspace --no-fail-fast --tool-config-file pb:/w/lib/nextest.toml --profile pb --test-threads 8 --offline >"$LOG/suite.log" 2>&1
-SUMMARY=$(grep -E '^\s+Summary' "$LOG/suite.log" | tail -1)
-FAILED=$(grep -E '^\s+(FAIL|SIGABRT|SIGSEGV|TIMEOUT)' "$LOG/suite.log" | sed -E 's/.*\) //' | sort -u | tr '\n' ';')
+SUMMARY=$(grep -a -E '^\s+Summary' "$LOG/suite.log" | tail -1)
+FAILED=$(grep -a -E '^\s+(FAIL|SIGABRT|SIGSEGV|TIMEOUT)' "$LOG/suite.log" | sed -E 's/.*\) //' | sort -u | tr '\n' ';')
 echo "$ID suite: $SUMMARY failed=[$FAILED]"
 EXPECT="trustfall_stubgen tests::hackernews_schema;trustfall_stubgen tests::no_edges_schema;trustfall_stubgen tests::use_reserved_rust_names_in_schema;"
 SUITE_OK=true
